@@ -4,8 +4,8 @@ from ._generic import make, STD_TRUST
 globals().update(
     make(
         pid="C04",
-        props=["JaqalProofs/Props/C04.lean"],
-        targets=["JaqalProofs.Props.C04"],
+        props=["JaqalProofs/Props/C04.lean", "JaqalProofs/Props/ParsedC04.lean"],
+        targets=["JaqalProofs.Props.C04", "JaqalProofs.Props.ParsedC04"],
         diffs=[("harness.agents.pass1_diff", 700, 6000), ("harness.agents.c04_entry", 60, 60), ("harness.agents.c04_scale", 20, 20)],
         trusted=[
             STD_TRUST,
